@@ -76,6 +76,12 @@ def coverage_for(key):
         if ":cast#" in key:
             return thm("mk_span_id", "usize as u32: identity for offsets of sources shorter than 4 GiB")
         return unproved("not modelled")
+    if f.endswith("core/src/error/mod.rs"):
+        if "path_span:unwrap" in key:
+            return unproved("FixedTypeParser.parse_tolerant_compat(format!(\"{ty}\")).unwrap(): relies on the printer/parser law `every runtime type printed by core/src/pretty.rs parses back as a type` (taken whenever the type of a label or of an ArrowTypeMismatch has no source position); the runtime printer is not modelled (coq/Surface models the AST printer, property C14): the law is checked directly on the implementation on every run (checks/c10.py run_type_law: every type shape in every type context, composed twice, ~5000 types; any type the pipeline parses) and the path is exercised by the error matrix")
+        if "path_span:expect" in key:
+            return unproved("ty_path::span on the re-parsed type: every node of a freshly parsed type has a position and the path was computed on the same type up to printing; relies on the same law plus stability of the printed form (checked by run_type_law: print(parse(print(T))) = print(T))")
+        return unproved("not modelled")
     if f.endswith("core/src/ast/compat.rs"):
         if "for term::LabeledType::from_ast" in key:
             return thm("no_panic_labeled_type", "the type of an annotation always has a position: the grammar sets it (WithPos) after fix_type_vars for let / inline / pattern / include annotations and before it for record fields, and every node rebuilt by fix_type_vars keeps the position of the node it replaces (build_fixed); tied by the annotation matrix of checks/c10_gen.py (every annotation position x type shape x identifier kind); types built elsewhere with Type::from are not annotations")
